@@ -142,6 +142,12 @@ func genCase(rng *rand.Rand, i int, tier string) corr.Case {
 		// the restart (PrepareCache) must work at every distance from genesis
 		reset += fmt.Sprintf(" gh=%d cache=%d", []int{1, 7, 100, 1 << 20}[rng.Intn(4)], []int{0, 3, 6, 20}[rng.Intn(4)])
 	}
+	if i%35 == 17 {
+		// a chain whose payload limit allows blocks of several hundred KiB: the step's batch is far larger than
+		// any internal buffer of the batch or of pebble's memtable, and must still be one atomic write
+		reset = fmt.Sprintf("reset nv=%d seed=%d mode=default keepev=%d maxtx=400000", nv, rng.Int63n(1<<40), keep)
+		return corr.Case{Ops: []string{reset, "blk txs=2 assets=1 bev=0 aev=0", fmt.Sprintf("blk txs=%d assets=0 bev=1 aev=0 txsize=14000", 12+rng.Intn(9)), "del temp=1", "restore", "blk txs=10 assets=0 bev=0 aev=0 txsize=13000"}, Tag: "bigblock/default"}
+	}
 	ops := []string{reset}
 	blk := func() string {
 		p := rng.Intn(4)
@@ -527,7 +533,7 @@ func (r *runner) blockOpts(w []string) node.BlockOpts {
 			exec = node.TxFail
 		}
 		sender := n.Validators[int(r.nonce)%len(n.Validators)]
-		params := append([]byte{node.TxOK, byte(exec)}, bytes.Repeat([]byte{byte(r.nonce)}, int(r.nonce%40))...)
+		params := append([]byte{node.TxOK, byte(exec)}, bytes.Repeat([]byte{byte(r.nonce)}, int(r.nonce%40)+kvArg(w, "txsize", 0))...)
 		o.Txs = append(o.Txs, n.NewTransaction(sender, r.nonce, 1000+r.nonce, params))
 	}
 	for i := 0; i < kvArg(w, "assets", 0); i++ {
@@ -1181,7 +1187,7 @@ func runCase(c corr.Case) ([]string, []corr.Fail) {
 	r := &runner{mode: mode, nv: nv}
 	r.aw = NewFS()
 	cfg := node.Config{NumValidators: nv, BatchSize: nv + 1, Seed: seed, ExtraValidators: 1, KeepEventsForHeights: &keep,
-		GenesisHeight: uint32(kvArg(w0, "gh", 0)), MaxBlockCache: kvArg(w0, "cache", 0)}
+		GenesisHeight: uint32(kvArg(w0, "gh", 0)), MaxBlockCache: kvArg(w0, "cache", 0), MaxTransactionsLength: uint32(kvArg(w0, "maxtx", 0))}
 	c0 := r.aw.Count()
 	a, err := newNode(cfg, r.aw, mode)
 	if err != nil {
